@@ -499,6 +499,7 @@ class H2Server(Peer):
         self.order: list[int] = []
         self.violations: list[str] = []
         self.max_open = 0
+        self.max_open_pre_ack = 0  # open streams seen before the client acknowledged our SETTINGS
         self.events: list[typing.Any] = []
         self.raw = b""
         self.goaway_sent = False
@@ -518,7 +519,10 @@ class H2Server(Peer):
         if not self.started:
             self.started = True
             if self.settings:
-                self.conn.update_settings(self.settings)
+                import h2.settings
+
+                # advertised in the very first SETTINGS frame
+                self.conn.local_settings = h2.settings.Settings(client=False, initial_values=dict(self.settings))
             self.conn.initiate_connection()
 
     def flush(self) -> None:
@@ -544,6 +548,8 @@ class H2Server(Peer):
             n_open = self.conn.open_inbound_streams
             if n_open > self.max_open:
                 self.max_open = n_open
+            if self.settings_acked == 0 and n_open > self.max_open_pre_ack:
+                self.max_open_pre_ack = n_open
             if isinstance(ev, h2.events.RequestReceived):
                 self.streams[ev.stream_id] = {
                     "headers": list(ev.headers), "body": b"", "ended": False,
